@@ -713,7 +713,7 @@ def check_packed(N: Layout, items: Sequence, strategy: str = EARLIEST) -> List[P
     return check_insert_multi([], N, 0, items, strategy, None)
 
 
-def check_concat_ragged(A: Layout, B: Layout, N: Layout) -> List[Problem]:
+def check_concat_ragged(A: Layout, B: Layout, N: Layout, key_order: bool = False) -> List[Problem]:
     """concat_ragged(A, B): each circuit keeps its own moment structure at some offset, and
     every operation of B stays after every operation of A it shares a qubit with."""
     ka, kb = layout_key(A), layout_key(B)
@@ -747,6 +747,18 @@ def check_concat_ragged(A: Layout, B: Layout, N: Layout) -> List[Problem]:
                         if qconf(x, y) and not (oa + i < ob + j):
                             bad = (x, y)
         if bad is None:
+            if key_order:
+                # concatenation: an operation of B must not end up before an operation of A it
+                # conflicts with on a measurement key
+                for i, ma in enumerate(A):
+                    for x in ma:
+                        for j, mb in enumerate(B):
+                            for y in mb:
+                                if kconf(x, y) and ob + j < oa + i:
+                                    return [("C05-ORDER:key", f"concat_ragged moved {y.describe()} of the second "
+                                                              f"circuit (moment {ob + j}) before {x.describe()} of the "
+                                                              f"first (moment {oa + i}) although they conflict on a "
+                                                              f"measurement key")]
             return []
     return [("C05-ORDER", f"concat_ragged moved {bad[1].describe()} of the second circuit to/before "
                           f"{bad[0].describe()} of the first")]
